@@ -91,6 +91,13 @@ def audit_sources():
     return bad
 
 
+def coqchk(pid):
+    """thorough tier: independent re-check of Props/Cxx.vo and everything it depends on; returns (ok, axioms text)."""
+    r = run(["timeout", "3000", "coqchk", "-silent", "-o", "-Q", os.path.join(V, "coq", "theories"), "ICS", f"ICS.Props.{pid}"])
+    tail = r.stdout[-3000:]
+    return r.returncode == 0, tail
+
+
 def proofs(pid, mod):
     """Returns dict(obligations, discharged, theorems, axioms, errors)."""
     res = {"obligations": 0, "discharged": 0, "theorems": [], "axioms": {}, "errors": []}
@@ -244,6 +251,39 @@ class Part:
         self.shrink = shrink
 
 
+def ddmin(list_key):
+    """Returns a shrinker that minimises case[list_key] (a list of actions) by delta debugging: a candidate is kept
+    when the real code + model still produce a failure of the same kind on it."""
+    def shrink(part, fail, rerun):
+        case = fail["case"]
+        items = list(case.get(list_key) or [])
+        kind = fail["kind"]
+        best = fail
+        n = 2
+        budget = 40
+        while len(items) >= 2 and budget > 0:
+            chunk = max(1, len(items) // n)
+            cands = []
+            for i in range(0, len(items), chunk):
+                c = dict(case); c[list_key] = items[:i] + items[i + chunk:]; c["id"] = len(cands)
+                cands.append(c)
+            budget -= 1
+            fails = rerun(cands)
+            hit = None
+            for f in fails:
+                if f["kind"] == kind:
+                    hit = f
+                    break
+            if hit:
+                items = list(hit["case"][list_key]); best = hit; n = max(n - 1, 2)
+            elif chunk == 1:
+                break
+            else:
+                n = min(len(items), n * 2)
+        return best
+    return shrink
+
+
 def load_known():
     p = os.path.join(V, "known_findings.json")
     return json.load(open(p)) if os.path.exists(p) else {"findings": []}
@@ -291,6 +331,13 @@ def main():
     if any("does not build" in e for e in pr["errors"]):
         log("\n".join(pr["errors"]))
         return 2
+
+    chk = None
+    if tier == "thorough" and not args.replay and not pr["errors"]:
+        ok, out = coqchk(pid)
+        chk = {"ok": ok, "output_tail": out}
+        if not ok:
+            pr["errors"].append("coqchk failed: " + out[-800:])
 
     known = load_known()
     known_ids = {f["id"]: f for f in known.get("findings", []) if f.get("property") == pid and f.get("status") == "known"}
@@ -404,6 +451,7 @@ def main():
             "traces_validated_against_impl": stats["evaluations"],
             "parts": part_stats, "histogram": hist, "proof_errors": pr["errors"],
             "known_findings_reproduced": sorted(known_hits),
+            "coqchk": chk,
         },
         "assumptions": getattr(mod, "ASSUMPTIONS", []),
         "wall_s": round(time.time() - t0, 2),
